@@ -717,7 +717,7 @@ func scenarios() []scenario {
 }
 
 func TestC20Sweeps(t *testing.T) {
-	r := h.NewRecorder(t, "C20", "sweeps", "seed sweeps: for each scenario (ShuffleTips n=3,4; RotateNeighbors degree 3,4; RandomUniformBinaryTree unrooted n=4,5,6 and rooted n=3,4,5; `gotree sample -n k` for (n,k) in {(2,1),(3,1),(4,2),(5,2),(6,3),(5,5),(4,6)}; `sample --replace` (2,3),(3,2),(4,1),(11,1),(15,1); `prune -r --random 4` on a stream of trees with 6, 3 and 6 tips; `prune --random k` remove/keep; `shuffletips`; `generate uniformtree`) the outcome is recorded for N consecutive seeds (library: rand.Seed(s); commands: --seed s; N = 4000/600 quick, 60000/6000 thorough) and every outcome cell and every 'element i selected' event is tested against its exact probability with an exact two-sided binomial test (per-cell level 1e-13, run-level false alarm probability < 1e-9), plus the support check (every possible outcome occurs; unexpected outcomes are violations). Evaluations = seeds drawn; non-trivial = seeds of scenarios with n > k >= 1 and >= 3 outcome cells")
+	r := h.NewRecorder(t, "C20", "sweeps", "seed sweeps: for each scenario (ShuffleTips n=3,4; RotateNeighbors degree 3,4; RandomUniformBinaryTree unrooted n=4,5,6 and rooted n=3,4,5; `gotree sample -n k` for (n,k) in {(2,1),(3,1),(4,2),(5,2),(6,3),(5,5),(4,6)}; `sample --replace` (2,3),(3,2),(4,1),(11,1),(15,1); `prune -r --random 4` on a stream of trees with 6, 3 and 6 tips; `prune --random k` remove/keep; `shuffletips`; `generate uniformtree`) the outcome is recorded for N consecutive seeds (library: rand.Seed(s); commands: --seed s; N = 40000/600 quick, 400000/6000 thorough) and every outcome cell and every 'element i selected' event is tested against its exact probability with an exact two-sided binomial test (per-cell level 1e-13, run-level false alarm probability < 1e-9), plus the support check (every possible outcome occurs; unexpected outcomes are violations). Evaluations = seeds drawn; non-trivial = seeds of scenarios with n > k >= 1 and >= 3 outcome cells")
 	scs := scenarios()
 	var rc Case
 	if replaying, mine := r.ReplayCase(&rc); replaying {
@@ -733,9 +733,9 @@ func TestC20Sweeps(t *testing.T) {
 		}
 		return
 	}
-	nlib, ncli := 4000, 600
+	nlib, ncli := 40000, 600
 	if h.Thorough() {
-		nlib, ncli = 60000, 6000
+		nlib, ncli = 400000, 6000
 	}
 	base := h.Seed() * 1000003
 	for i, sc := range scs {
